@@ -7,7 +7,8 @@ use gm_zuc::ZUC;
 use serde_json::{json, Value};
 
 fn run_requests(t: &mut Tracer, sess: &str, key: &[u8], iv: &[u8], reqs: &[usize]) {
-    let out = guard_plain(|| ZUC::new(key, iv));
+    let (pk, pv) = (crate::gen::realign(key), crate::gen::realign(iv));
+    let out = guard_plain(|| ZUC::new(pk.get(), pv.get()));
     t.emit(sess, "zuc.new", json!({"prop": "C08", "key": bytes(key), "iv": bytes(iv), "outcome": out.name(), "detail": out.detail()}));
     let mut z = match out { crate::trace::Outcome::Ok(z) => z, _ => return };
     for n in reqs {
@@ -173,14 +174,16 @@ pub fn drive_stream(t: &mut Tracer, tier: &str, seed: u64, plan: Option<String>)
 }
 
 fn eea_event(t: &mut Tracer, sess: &str, key: &[u8], count: u32, bearer: u32, dir: u32, len: u32, msg: &[u32]) -> Option<Vec<u32>> {
-    let o = guard_plain(|| { let mut e = EEA::new(key, count, bearer, dir); e.encrypt(msg, len) });
+    let pk = crate::gen::realign(key);
+    let o = guard_plain(|| { let mut e = EEA::new(pk.get(), count, bearer, dir); e.encrypt(msg, len) });
     let w = o.ok().cloned();
     t.emit(sess, "eea.encrypt", json!({"prop": "C18", "key": bytes(key), "count": word16(count), "bearer": bearer, "dir": dir, "len": len,
         "msg": words16(msg), "out": words16(w.as_deref().unwrap_or(&[])), "outcome": o.name(), "detail": o.detail()}));
     w
 }
 fn eia_event(t: &mut Tracer, sess: &str, key: &[u8], count: u32, bearer: u32, dir: u32, len: u32, msg: &[u32]) {
-    let o = guard_plain(|| { let mut e = EIA::new(key, count, bearer, dir); e.gen_mac(msg, len) });
+    let pk = crate::gen::realign(key);
+    let o = guard_plain(|| { let mut e = EIA::new(pk.get(), count, bearer, dir); e.gen_mac(msg, len) });
     let m = o.ok().cloned().unwrap_or(0);
     t.emit(sess, "eia.mac", json!({"prop": "C18", "key": bytes(key), "count": word16(count), "bearer": bearer, "dir": dir, "len": len,
         "msg": words16(msg), "mac": word16(m), "outcome": o.name(), "detail": o.detail()}));
@@ -273,7 +276,7 @@ pub fn drive_eea(t: &mut Tracer, tier: &str, seed: u64) {
     // very long messages (up to 65 504 bits, the 3GPP maximum): rare events of the keystream generator (a carry that needs a second fold, about once
     // per 1200 LFSR steps) are reached through EEA3 / EIA3 themselves, incl. structured keys
     for i in 0..(if thorough { 24 } else { 5 }) {
-        let len = 40000 + rng.below(25504) as u32;
+        let len = if i == 0 { 65504 } else if i == 1 { 65503 } else { 40000 + rng.below(25504) as u32 };       // 65504 bits is the 3GPP maximum
         let key = match i % 5 { 3 => vec![0u8; 16], 4 => vec![0xffu8; 16], _ => rng.bytes(16) };
         let count = rng.next() as u32;
         let msg = words(&mut rng, ((len + 31) / 32) as usize);
